@@ -16,7 +16,7 @@ import ir, flow, variants
 from common import where, fwhere
 import scanner_ids as S
 from scanner_ids import scanner
-from c05 import Cases, array_elem, esig, sig_mentions, action_switch, eob_constant
+from c05 import Cases, array_elem, esig, sig_mentions, action_switch, eob_constant, copies_of
 
 NL = 10
 
@@ -114,17 +114,28 @@ def r3(ctx):
     key = 'C06.R3:parse.y:dollar'
     probs = []
     # link_machines(eps, mkstate('\n')) with eps = mkstate(SYM_EPSILON) from this action, result linked behind $1
-    use = [u for u in f.uses().get(c.res, []) if u.op == 'call' and u.callee == 'link_machines']
-    if len(use) != 1 or use[0].ops[1] != ('reg', c.res):
+    nlv = copies_of(f, c.res)
+    use = [u for u in cs.ins(lab) if u.op == 'call' and u.callee == 'link_machines' and any(o[0] == 'reg' and o[1] in nlv for o in u.ops)]
+    if len(use) != 1 or not (use[0].ops[1][0] == 'reg' and use[0].ops[1][1] in nlv):
         probs.append((c, "mkstate('\\n') is not the second machine of a link_machines call"))
     else:
         inner = use[0]
-        first = esig(f, inner.ops[0])
-        eps_st = [y for y in cs.ins(lab) if y.op == 'store' and ('ld', esig(f, y.ops[1])) == first]
-        src = f.def_of(eps_st[-1].ops[0]) if eps_st else None
-        if src is None or src.op != 'call' or src.callee != 'mkstate' or src.ops[0] != ('int', EPS) or not cfg.dominates(eps_st[-1].blk, inner.blk):
+        def origin(v, at):
+            """value v at instruction `at`: follow loads to the nearest dominating store inside this action"""
+            for _ in range(6):
+                d = f.def_of(v)
+                if d is None or d.op != 'load': return d
+                sig = esig(f, d.ops[0])
+                sts = [y for y in cs.ins(lab) if y.op == 'store' and esig(f, y.ops[1]) == sig and (cfg.dominates(y.blk, at.blk) and (y.blk is not at.blk or y.idx < at.idx))]
+                if not sts: return d
+                last = [y for y in sts if not any(z is not y and cfg.dominates(y.blk, z.blk) and (z.blk is not y.blk or z.idx > y.idx) for z in sts)]
+                v = last[0].ops[0]
+            return f.def_of(v)
+        src = origin(inner.ops[0], inner)
+        if src is None or src.op != 'call' or src.callee != 'mkstate' or src.ops[0] != ('int', EPS):
             probs.append((inner, "the newline state is not linked behind an epsilon state created in this action"))
-        outer = [u for u in f.uses().get(inner.res, []) if u.op == 'call' and u.callee == 'link_machines' and u.ops[1] == ('reg', inner.res)]
+        tl = copies_of(f, inner.res)
+        outer = [u for u in cs.ins(lab) if u.op == 'call' and u.callee == 'link_machines' and u.ops[1][0] == 'reg' and u.ops[1][1] in tl]
         if not outer: probs.append((inner, 'the (epsilon, newline) machine is not appended to the rule body'))
     def const_store(name, want):
         st = [y for y in cs.ins(lab) if y.op == 'store' and y.ops[1] == ('glob', name)]
